@@ -82,6 +82,8 @@ func runC03(c *core.Ctx) {
 		c.Undecided("R3.1", "orcas#lock-tables", "-", "cannot tell the shared from the exclusive lock table")
 		return
 	}
+	c.Rule("R3.6", "per bucket the shared and the exclusive table hold two views of one mutex: the value stored in the shared table is the object stored in the exclusive table at the same index, or its RLocker()", 1)
+	checkLockPairs(c, "R3.6", sharedG, exclG)
 	// wrapper fields -> table
 	fieldTable := map[string]string{}
 	var ctorAllocs []*ssa.Alloc
